@@ -629,6 +629,26 @@ Proof.
   - intros evs' Ee. rewrite Es in Ee. inversion Ee; subst. exact Hl.
 Qed.
 
+(* ... and without any hypothesis on the distance: a negative one makes new()
+   panic, which is not OutOfFuel *)
+Corollary events_with_no_fuel chk fuel tf start dur vel td total n k :
+  0 <= n <= i32_max -> 0 <= k <= 30 ->
+  (forall tdc, D.clamp_chk td D.zero (D.min (SliderEvents.c_max_len SliderEvents.ops64) total) = Done tdc ->
+               D.lt D.zero tdc = true ->
+               (is_finite tdc = true /\ (bpow radix2 (- k) <= B2R tdc)%R) \/
+               tdc = D.min (SliderEvents.c_max_len SliderEvents.ops64) total) ->
+  100000 * 2 ^ k + 1 < Z.of_nat tf ->
+  3 + n * (100000 * 2 ^ k + 1) < Z.of_nat fuel ->
+  avoids BFuel (events_with chk fuel tf start dur vel td total n).
+Proof.
+  intros Hn Hk Htd Htf Hfuel. destruct (nn64 total) eqn:Ht.
+  - apply done_avoids. exact (events_with_done chk fuel tf start dur vel td total n k Hn Ht Hk Htd Htf Hfuel).
+  - unfold events_with, SliderEvents.run.
+    pose proof (iter_new_panics_iff (SliderEvents.mkP start dur vel td total n) []) as C.
+    cbn [SliderEvents.p_total] in C. rewrite nn64_lt_zero, Ht in C. cbn [negb] in C.
+    rewrite C. cbn [obind]. exact I.
+Qed.
+
 (* ---------- the tick distances the encoder derives ---------- *)
 
 (* fn slider_events: tick_dist *)
@@ -757,13 +777,13 @@ Section RealFuel.
 
   (* and with tick distances bounded below, the stated fuel is enough *)
   Theorem map_avoids_fuel k m :
-    map_shape dreal m -> neg_dist_class lm m = false -> 0 <= k <= 30 ->
+    map_shape dreal m -> 0 <= k <= 30 ->
     Forall (slider_ticks_ok k m) (hov_hit_objects (bmv_ho m)) ->
     100000 * 2 ^ k + 1 < Z.of_nat tf ->
     3 + repeat_cap * (100000 * 2 ^ k + 1) < Z.of_nat fuel ->
     map_events_avoid dreal ereal BFuel m.
   Proof.
-    intros (Hc & Hf) Hn Hk Ht Htf Hfuel. unfold map_events_avoid.
+    intros (Hc & Hf) Hk Ht Htf Hfuel. unfold map_events_avoid.
     apply Forall_forall. intros h Hin. rewrite Forall_forall in Hf, Ht.
     specialize (Hf h Hin). specialize (Ht h Hin).
     unfold events_avoid, obj_fin, slider_ticks_ok in *.
@@ -773,22 +793,23 @@ Section RealFuel.
     assert (Hrange : 0 <= sl_repeat_count s + 1 <= i32_max) by (pose proof repeat_cap_i32; lia).
     assert (Hfuel' : 3 + (sl_repeat_count s + 1) * (100000 * 2 ^ k + 1) < Z.of_nat fuel).
     { assert (0 <= 100000 * 2 ^ k + 1) by (assert (0 < 2 ^ k) by (apply Z.pow_pos_nonneg; lia); lia). nia. }
-    assert (Hnn : (g_mode (hov_general (bmv_ho m)) = 0 \/ g_mode (hov_general (bmv_ho m)) = 2) -> nn64 d = true).
-    { intros Hm. unfold neg_dist_class in Hn.
-      replace ((g_mode (hov_general (bmv_ho m)) =? 0) || (g_mode (hov_general (bmv_ho m)) =? 2)) with true in Hn by lia.
-      cbn [andb] in Hn.
-      destruct (nn64 d) eqn:E; [reflexivity|]. exfalso.
-      assert (existsb (neg_dist_slider lm) (hov_hit_objects (bmv_ho m)) = true).
-      { apply existsb_exists. exists h. split; [exact Hin|]. unfold neg_dist_slider. rewrite Ek.
-        rewrite <- dist_real_eq, Hd, nn64_lt_zero, E. reflexivity. }
-      congruence. }
     split; intros Hm.
     - rewrite (slider_events_unfold dreal ereal _ _ _ _ _ d Hc Hd).
-      apply done_avoids.
-      exact (events_with_done chk fuel tf _ _ _ _ _ _ k Hrange (Hnn (or_introl Hm)) Hk (T0 Hm) Htf Hfuel').
+      exact (events_with_no_fuel chk fuel tf _ _ _ _ _ _ k Hrange Hk (T0 Hm) Htf Hfuel').
     - rewrite (juicestream_events_unfold dreal ereal _ _ _ _ _ _ d Hc Hd).
-      apply done_avoids.
-      exact (events_with_done chk fuel tf _ _ _ _ _ _ k Hrange (Hnn (or_intror Hm)) Hk (T2 Hm) Htf Hfuel').
+      exact (events_with_no_fuel chk fuel tf _ _ _ _ _ _ k Hrange Hk (T2 Hm) Htf Hfuel').
+  Qed.
+
+  (* with tick distances bounded below the encoder never runs out of the stated fuel *)
+  Theorem encode_no_fuel lines bv k :
+    decode_beatmap (dist_of_curve lm) lines = Done bv -> 0 <= k <= 30 ->
+    Forall (slider_ticks_ok k bv) (hov_hit_objects (bmv_ho bv)) ->
+    100000 * 2 ^ k + 1 < Z.of_nat tf ->
+    3 + repeat_cap * (100000 * 2 ^ k + 1) < Z.of_nat fuel ->
+    encode_tokens dreal ereal bv <> OutOfFuel.
+  Proof.
+    intros H Hk Ht Htf Hfuel. apply (encode_fuel_only_events lines bv H).
+    exact (map_avoids_fuel k bv (decoded_shape lm lines bv H) Hk Ht Htf Hfuel).
   Qed.
 
   (* RE-ENCODING COMPLETES: a decoded map outside the negative-distance class
@@ -804,7 +825,7 @@ Section RealFuel.
     intros H Hn Hk Ht Htf Hfuel. pose proof (decoded_shape lm lines bv H) as Hm.
     apply encode_done; [exact Hm| |].
     - exact (map_avoids_panic lm chk fuel tf bv Hm Hn).
-    - exact (map_avoids_fuel k bv Hm Hn Hk Ht Htf Hfuel).
+    - exact (map_avoids_fuel k bv Hm Hk Ht Htf Hfuel).
   Qed.
 
   (* taiko and mania maps: no slider events at all; always completes *)
